@@ -468,6 +468,52 @@ func (x *ctx) runFaultJob(id int, root string) {
 		r.Count("fault_then_save_then_reload", 1)
 		r.Count("fault_cycle:"+k, 1)
 	}
+	// a conversion of the live wallet data that FAILS: the right passwords for the accounts before
+	// position k, a wrong one at k (k = every position >= 1 in turn, one per wallet). The call must
+	// report an error and every account must still open with its own password — in memory and
+	// after the next save + reload.
+	if !w.failed && len(w.accts) >= 2 {
+		low := id%8 != 0
+		wd := w.cli.GetWalletData()
+		k := 1 + (id/2)%(len(wd.Accounts)-1)
+		pwds := make([][]byte, len(wd.Accounts))
+		okp := true
+		for i, ad := range wd.Accounts {
+			if a := w.find(ad.Address); a != nil {
+				pwds[i] = a.pwd
+			} else {
+				okp = false
+			}
+		}
+		if okp {
+			pwds[k] = append(append([]byte{}, pwds[k]...), 'x')
+			var err error
+			conv := "ToLowSecurity"
+			if low {
+				conv = "ToDefaultSecurity"
+			}
+			w.log("failing conversion: %s with a wrong password at position %d of %d", conv, k, len(pwds))
+			if p := kit.Catch(func() {
+				if low {
+					err = wd.ToDefaultSecurity(pwds)
+				} else {
+					err = wd.ToLowSecurity(pwds)
+				}
+			}); p != nil {
+				w.vio("export-conversion-panic:"+conv, fmt.Sprint(p), w.replay())
+			} else if err == nil {
+				w.vio("fault:conversion-succeeded-with-wrong-password:"+conv, fmt.Sprintf("wrong password at position %d accepted", k), w.replay())
+			} else {
+				r.Eval(1)
+				r.Distinct("failed-conversion", conv, k)
+				w.verify(w.cli, "in-memory-after-failed-conversion", false, nil)
+				if !w.failed && w.do("SetLabel", false, donor) && !w.failed && w.reload("reload-after-failed-conversion") && !w.failed {
+					r.Count("failed_conversion_cycles", 1)
+					r.Count("failed_conversion_cycles:"+conv, 1)
+				}
+			}
+		}
+	}
 	// export with the other scrypt parameter set (Clone + ToLowSecurity / ToDefaultSecurity + Save,
 	// as `account export` does): the exported file opens with the same passwords, and the wallet
 	// it was cloned from is untouched — in memory and after its next save + reload
